@@ -280,6 +280,10 @@ func findShort(r rune, specs []*OptionSpec) *OptionSpec {
 func parseLong(s string, specs []*OptionSpec) (*Option, bool) {
 	eq := strings.IndexRune(s, '=')
 	for _, opt := range specs {
+		if opt.Long == "" {
+			// The option has no long form.
+			continue
+		}
 		if s == opt.Long {
 			return &Option{Spec: opt, Long: true}, opt.Arity == RequiredArgument
 		} else if eq != -1 && s[:eq] == opt.Long {
